@@ -20,6 +20,23 @@ def _gen(ctx, module, cfg, defines, timeout=900, mode="mc", **kw):
     return r.cases
 
 
+def _tlc_parallel(ctx, jobs, workers=4):
+    """jobs: [(module, cfg, defines)] -> list of TlcResult, run concurrently (each TLC with a few workers:
+    the runs are small, start-up dominated).  Every run must pass (spec-alone failure = machinery)."""
+    from concurrent.futures import ThreadPoolExecutor
+    with ThreadPoolExecutor(max_workers=len(jobs)) as ex:
+        futs = [ex.submit(ctx.tlc, SPEC, m, cfg, defines=d, timeout=2400, workers=workers, count=False)
+                for m, cfg, d in jobs]
+        out = [f.result() for f in futs]
+    for (m, cfg, d), r in zip(jobs, out):
+        if not r.ok:
+            raise vlib.MachineryError("TLC on %s/%s %s %s failed: violation=%s error=%s" %
+                                      (SPEC, m, cfg, d, r.violation, r.error))
+        ctx.cov["states"] += r.distinct
+        ctx.cov["transitions"] += r.generated
+    return out
+
+
 def _run(ctx, sub, cases, timeout=900):
     return _run_raw(ctx, sub, [], cases, timeout)
 
@@ -131,18 +148,22 @@ def check_c17(ctx):
                        "under recover + watchdog; built conditions are also Matched once. distinct = distinct abstract inputs.")
     seen = set()
     cases = []
+    jobs = []
     for mode, maxlen, maxdev in runs:
         d = {"MODE": mode, "MAXLEN": maxlen, "MAXDEV": maxdev}
         ctx.cov["constants"]["Gen_Syntax_%s_%d_%d" % (mode, maxlen, maxdev)] = d
-        r = ctx.tlc_must_pass(SPEC, "GenCondSyntax", "Gen_Syntax.cfg", defines=d, timeout=2400)
+        jobs.append(("GenCondSyntax", "Gen_Syntax.cfg", d))
+    d = {"MAXARGS": 4}
+    ctx.cov["constants"]["Gen_Calls"] = d
+    jobs.append(("GenCondCalls", "Gen_Calls.cfg", d))
+    results = _tlc_parallel(ctx, jobs)
+    for r in results[:-1]:
         for c in r.cases:
             key = (c["kind"] == "chars", tuple(c["toks"]))
             if key not in seen:
                 seen.add(key)
                 cases.append(c)
-    d = {"MAXARGS": 4}
-    ctx.cov["constants"]["Gen_Calls"] = d
-    r = ctx.tlc_must_pass(SPEC, "GenCondCalls", "Gen_Calls.cfg", defines=d, timeout=1200)
+    r = results[-1]
     sig = [c for c in r.cases if c.get("kind") == "sigtable"]
     calls = [c for c in r.cases if c.get("kind") == "call"]
     if not sig or not calls:
@@ -162,8 +183,61 @@ def check_c17(ctx):
                            "port; blanks inside a hash section or an IP list; lower-case time zone letter; reversed IP/time range; "
                            "mixed address families; different zones in a periodic range; non-empty period")
 
+# ----------------------------------------------------------------------------- C18
+PRIM_GROUPS = [["str"], ["path", "elem", "urlreg"], ["host", "port", "qkey", "ckey", "hkey", "method", "tls"],
+               ["iprange", "vipin", "hash", "tag", "time", "tod", "rescode", "trusted"]]
 
-PROPS = {"C16": check_c16, "C17": check_c17}
+
+def _prim_report(ctx, cases):
+    bad, summ = _run(ctx, "prim", cases)
+    ctx.traces(len(cases))
+    for b in bad:
+        case = b.get("case") or {}
+        case.pop("id", None)
+        ctx.report(b["sig"], b.get("detail", "")[:1500], case=case, harness="cond", cmd="prim")
+    return bad
+
+
+def check_c18(ctx):
+    q = ctx.tier == "quick"
+    base = {"STRLEN": 2 if q else 3, "PATLEN": 1 if q else 2, "BIG": "FALSE" if q else "TRUE"}
+    ctx.cov["constants"]["Gen_Prim"] = base
+    ctx.cov["rule"] = ("cases = for every documented primitive (44; one Layer-P operator each) every combination of pattern list, "
+                       "flag and request attribute over the small alphabets of CondPrim.tla (strings over {a,A,b} / {a,A,/}, "
+                       "hosts with and without port, v4/v6 addresses around byte boundaries, present/absent/empty attributes, "
+                       "zones Z/H/N with wall-clock values around hour and day boundaries), with the expected truth value "
+                       "(hash primitives: function-independent relations). TLC also checks the code-shaped formulations "
+                       "(Layer M) against Layer P on every decisive case. Each case is rendered into condition strings and "
+                       "real requests (bfe_http.ReadRequest + session), condition.Build + Match, compared. "
+                       "distinct = distinct (conditions, requests) cases, gray ones excluded.")
+    jobs = [("GenCondPrim", "Gen_Prim.cfg", dict(base, GROUPS=",".join('"%s"' % g for g in gs))) for gs in PRIM_GROUPS]
+    cases = []
+    for r in _tlc_parallel(ctx, jobs, workers=2):
+        cases += r.cases
+    if not cases:
+        raise vlib.MachineryError("GenCondPrim generated no cases")
+    ctx.cov["exhaustive"] = True
+    _prim_report(ctx, cases)
+    groups = {}
+    for c in cases:
+        groups[c["g"]] = groups.get(c["g"], 0) + 1
+        ctx.count([c["conds"], c["reqs"]], nontrivial=c["rel"] != "G")
+    ctx.cov["cases_per_group"] = groups
+    ctx.cov["gray_cases"] = sum(1 for c in cases if c["rel"] == "G")
+    shown = set()
+    for c in cases:
+        if c["g"] not in shown and c["rel"] == "T" and len(shown) < 5:
+            shown.add(c["g"])
+            ctx.sample(c)
+    ctx.assumptions.append("gray (no verdict, panics only): an empty entry in a pattern list when it decides the outcome; "
+                           "paths or element patterns with empty elements (//); req_port_in without a port in Host; key "
+                           "primitives when only letter case differs; non-canonical keys and present-but-empty headers for "
+                           "*_header_key_in; lower-case method names; SNI / client CA names differing in case only")
+    ctx.assumptions.append("the hash function of *_hash_in is not documented: only function-independent relations are checked")
+    ctx.assumptions.append("bfe_time_range / bfe_periodic_time_range are driven through the documented X-Bfe-Debug-Time header")
+
+
+PROPS = {"C16": check_c16, "C17": check_c17, "C18": check_c18}
 
 
 def replay(ctx, pid, rep):
@@ -173,6 +247,8 @@ def replay(ctx, pid, rep):
         _expr_report(ctx, [case])
     elif sub == "syntax":
         _syntax_report(ctx, [case])
+    elif sub == "prim":
+        _prim_report(ctx, [case])
     rc = ctx.finish()
     print("replay: %s" % ("violation reproduced" if rc == 1 else "no violation on the current tree"))
     return rc
